@@ -66,11 +66,10 @@ theorem gen_usual_arith_table :
       | some r => decide (sameRepr r (usualArith t1 t2))
       | none => false) = true := by decide +kernel
 
-/-- where c2mir's answer is not literally the C type: only `unsigned long` for `unsigned long long` -/
+/-- c2mir's answer is literally the C type (since /repo 584db93a; see `usual_arith_old_wrong`) -/
 theorem gen_usual_arith_exact :
     (IType.all.all fun t1 => IType.all.all fun t2 =>
-      let r := ofCTy (arithmetic_conversion t1.toCTy t2.toCTy)
-      r == some (usualArith t1 t2) || (r == some .ulong && usualArith t1 t2 == .ullong)) = true := by
+      ofCTy (arithmetic_conversion t1.toCTy t2.toCTy) == some (usualArith t1 t2)) = true := by
   decide +kernel
 
 theorem gen_insn_table :
